@@ -188,8 +188,11 @@ def replay_cover(c, name, base, script_tla, mc_consts, scenario, trace_module, t
         return None
     paths, n_edges, n_cov = edge_cover(edges, init, max_paths=max_paths)
     scheds = schedules_of(paths)
-    # identical schedules can arise from paths that differ only in return steps
-    uniq = list(dict.fromkeys(tuple(s) for s in scheds))
+    # identical schedules arise from paths that differ only in return steps: one replay stands for all of them
+    paths_of = collections.OrderedDict()
+    for p_, s_ in zip(paths, scheds):
+        paths_of.setdefault(tuple(s_), []).append(p_)
+    uniq = list(paths_of.keys())
     scns = []
     for k in range(0, len(uniq), chunk):
         s = dict(scenario)
@@ -197,14 +200,16 @@ def replay_cover(c, name, base, script_tla, mc_consts, scenario, trace_module, t
         s["explore"] = {"mode": "replay", "schedules": [list(x) for x in uniq[k:k + chunk]]}
         scns.append(s)
     trace, runs, v = c.conform(scns, name + "_cover", trace_module, trace_consts, profile=profile)
-    diverged = [x for x in runs if x.get("diverged", -1) >= 0]
-    not_followed = 0
+    sched_of = {}
+    for s_ in scns:
+        for i, sch in enumerate(s_["explore"]["schedules"]):
+            sched_of[(s_["id"], i + 1)] = tuple(sch)
+    diverged = set((x["scn"], x["run"]) for x in runs if x.get("diverged", -1) >= 0)
+    incomplete = set((x["scn"], x["run"]) for x in runs if x["outcome"] != "complete")
+    rejected = set((m["run"]["scn"], m["run"]["run"]) for m in v["mismatches"]) | set((x["scn"], x["run"]) for x in v.get("unvalidated", []))
+    other_steps = set()
     if strict:
         # the recorded execution must consist of exactly the path's steps, thread by thread: one `call` event per GCall, one `op` event per GOp
-        sched_of = {}
-        for s_ in scns:
-            for i, sch in enumerate(s_["explore"]["schedules"]):
-                sched_of[(s_["id"], i + 1)] = sch
         got = {}
         cur = None
         with open(trace) as f:
@@ -225,16 +230,30 @@ def replay_cover(c, name, base, script_tla, mc_consts, scenario, trace_module, t
                     continue
                 want.append(t)
             if got.get(key) != want:
-                not_followed += 1
-    incomplete = [x for x in runs if x["outcome"] != "complete"]
-    rec = {"graph": name, "model": base, "script": script_tla, "states": r["distinct"], "transitions_in_graph": n_edges, "transitions_covered_by_paths": n_cov, "paths": len(paths),
-           "schedules_replayed": len(uniq), "replays_diverged": len(diverged), "replays_not_following_the_path_step_by_step": not_followed, "replays_incomplete": len(incomplete), "replays_accepted_by_L2_trace_spec": v["runs_ok"]}
+                other_steps.add(key)
+    # the scheduler never re-runs an iteration of a spin loop unless somebody wrote something in between (it parks the spinning thread);
+    # a path of the model that does so is stutter-equivalent to one that does not, and its replay "diverges" while still being a
+    # behaviour of the L2 specification: such replays are counted, not reported as drift
+    pruned = (diverged | other_steps) - rejected - incomplete
+    followed = set(sched_of.keys()) - diverged - other_steps - rejected - incomplete
+    # count distinct edges (label, thread, dst) per source is not kept in the path: recount through the graph
+    covered_edges = set()
+    for key in followed:
+        for p_ in paths_of[sched_of[key]]:
+            src = init
+            for e in p_:
+                covered_edges.add((src, e))
+                src = e[2]
+    rec = {"graph": name, "model": base, "script": script_tla, "states": r["distinct"], "transitions_in_graph": n_edges, "transitions_in_generated_paths": n_cov, "paths": len(paths),
+           "schedules_replayed": len(uniq), "replays_following_their_path_step_by_step": len(followed), "transitions_entered_by_the_real_code": len(covered_edges),
+           "replays_pruned_spin_iterations": len(pruned), "replays_incomplete": len(incomplete), "replays_rejected_by_L2_trace_spec": len(rejected),
+           "replays_accepted_by_L2_trace_spec": v["runs_ok"]}
     c.extra.setdefault("spec_to_impl_transition_cover", []).append(rec)
-    log("[cover] %-22s %d states, %d/%d transitions in %d paths -> %d schedules; diverged %d, incomplete %d, accepted %d" % (
-        name, r["distinct"], n_cov, n_edges, len(paths), len(uniq), len(diverged), len(incomplete), v["runs_ok"]))
-    if diverged or v["mismatches"] or not_followed:
-        c.drift.append("%s: %d of %d schedules derived from the %s state graph could not be followed by the real code (%d diverged, %d took other steps than the path, %d rejected by %s)" % (
-            name, max(len(diverged), not_followed) + len(v["mismatches"]), len(uniq), base, len(diverged), not_followed, len(v["mismatches"]), trace_module))
+    log("[cover] %-22s %d states, %d paths -> %d schedules; followed %d (%d/%d transitions entered by the real code), spin-pruned %d, incomplete %d, rejected %d" % (
+        name, r["distinct"], len(paths), len(uniq), len(followed), len(covered_edges), n_edges, len(pruned), len(incomplete), len(rejected)))
+    if rejected or incomplete:
+        c.drift.append("%s: %d of %d schedules derived from the %s state graph could not be followed by the real code (%d rejected by %s, %d ended with a stuck thread)" % (
+            name, len(rejected | incomplete), len(uniq), base, len(rejected), trace_module, len(incomplete)))
     if judge_fn:
         judge_fn(scns, name + "_cover", trace, runs, v)
     return rec
